@@ -273,11 +273,11 @@ def gen_conc(rng):
 
 
 def generate(rng, tier, scale=1):
-    nr, nh, nc = (220, 70, 170) if tier == "quick" else (3000, 1000, 3000)
+    nr, nh, nc = (180, 60, 130) if tier == "quick" else (3000, 1000, 3000)
     cs = [gen_rr(rng) for _ in range(nr * scale)]
     cs += [gen_hist(rng) for _ in range(nh * scale)]
     cs += [gen_conc(rng) for _ in range(nc * scale)]
-    cs += [gen_req(rng) for _ in range((50 if tier == "quick" else 500) * scale)]
+    cs += [gen_req(rng) for _ in range((40 if tier == "quick" else 500) * scale)]
     if tier == "thorough" and scale == 1:
         for k, picks in ((3, [2, 2]), (2, [1, 1, 1]), (4, [2, 1])):
             ng = len(picks)
